@@ -148,7 +148,23 @@ function isNL(c) { return c === 10 || c === 13 || c === 0x2028 || c === 0x2029; 
 
 // sources are shared by the outputs of one scenario: tokenise each text once
 const SRC_CACHE = new Map();
-function sourceInfo(t) {
+// TypeScript / TSX originals cannot be tokenised by acorn: the token that starts
+// at a position is read off the text there (identifier run that does not continue
+// one, quoted string, number, or a single punctuation character)
+function looseTokenAt(text, o) {
+  const c = text[o];
+  if (c === undefined || /\s/.test(c)) return undefined;
+  if (/[A-Za-z_$]/.test(c)) {
+    if (o > 0 && /[A-Za-z0-9_$]/.test(text[o - 1])) return undefined;
+    const m = /^[A-Za-z_$][A-Za-z0-9_$]*/.exec(text.slice(o, o + 120));
+    return { t: 'ident', x: m[0], e: o + m[0].length };
+  }
+  if (c === '"' || c === "'") { const j = text.indexOf(c, o + 1); return j < 0 ? undefined : { t: 'string', x: text.slice(o, j + 1), e: j + 1 }; }
+  if (/[0-9]/.test(c)) { if (o > 0 && /[A-Za-z0-9_$.]/.test(text[o - 1])) return undefined; const m = /^[0-9.]+/.exec(text.slice(o, o + 40)); return { t: 'literal', x: m[0], e: o + m[0].length }; }
+  return { t: 'punct', x: c, e: o + 1 };
+}
+function sourceInfo(t, loose) {
+  if (loose) return { text: t, starts: lineStarts(t), tok: { toks: { get: o => looseTokenAt(t, o) }, error: null } };
   let v = SRC_CACHE.get(t);
   if (!v) {
     v = { text: t, starts: lineStarts(t), tok: tokenize(t) };
@@ -160,7 +176,7 @@ function sourceInfo(t) {
 
 // ---- one job ----------------------------------------------------------------
 function checkJob(job) {
-  const errors = [], stats = { mappings: 0, with_source: 0, marker_true: 0, name_true: 0, cover: 0, plain_same: 0, plain_diff: 0, blank_skips: 0, newline_skips: 0, paren_skips: 0, gen_markers: 0, gen_markers_mapped: 0, sources: 0, dup_gen: 0, lines: 0 };
+  const errors = [], stats = { mappings: 0, with_source: 0, marker_true: 0, name_true: 0, cover: 0, plain_same: 0, plain_diff: 0, blank_skips: 0, newline_skips: 0, paren_skips: 0, gen_markers: 0, gen_markers_mapped: 0, sources: 0, dup_gen: 0, lines: 0, null_content: 0, renamed_unverified: 0, compose_not_decidable: 0, compose_true: 0, compose_unmapped_ok: 0, inexact_skipped: 0 };
   const err = (kind, msg, extra) => { if (errors.length < 40) errors.push(Object.assign({ kind, msg }, extra || {})); };
   const opts = job.opts || {}, expect = job.expect || {};
   let map;
@@ -184,20 +200,63 @@ function checkJob(job) {
   if (new Set(map.sources).size !== map.sources.length) err('duplicate-source', 'sources lists one file twice: ' + JSON.stringify(map.sources));
   if (expect.sourcesContent === true) {
     if (!Array.isArray(map.sourcesContent) || map.sourcesContent.length !== map.sources.length) err('sources-content', 'sourcesContent is missing or has the wrong length');
-    else map.sourcesContent.forEach((c, i) => { if (srcText[i] !== null && c !== srcText[i]) err('sources-content', `sourcesContent[${i}] differs from the text of ${map.sources[i]}`, { got: typeof c === 'string' ? c.slice(0, 80) : c }); });
+    else map.sourcesContent.forEach((c, i) => { if (c === null && (expect.nullContent || []).includes(map.sources[i])) { stats.null_content++; return; } if (srcText[i] !== null && c !== srcText[i]) err('sources-content', `sourcesContent[${i}] differs from the text of ${map.sources[i]}`, { got: typeof c === 'string' ? c.slice(0, 80) : c }); });
   } else if (expect.sourcesContent === false) {
     if ('sourcesContent' in map) err('sources-content', 'sourcesContent present although it was switched off');
+  }
+  // "sources" is the concatenation of the files' own source lists (one entry for a
+  // plain file, the input map's sources for a file that carries one)
+  if (expect.groups) {
+    let total = 0;
+    for (const g of expect.groups) {
+      total += g.sources.length;
+      const i0 = map.sources.indexOf(g.sources[0]);
+      if (i0 < 0) { err('sources-not-concatenation', `the sources of ${g.file} are missing: ${JSON.stringify(g.sources)} not in ${JSON.stringify(map.sources)}`); continue; }
+      for (let j = 0; j < g.sources.length; j++) if (map.sources[i0 + j] !== g.sources[j]) { err('sources-not-concatenation', `the sources of ${g.file} must be the contiguous run ${JSON.stringify(g.sources)} but sources is ${JSON.stringify(map.sources)}`); break; }
+    }
+    if (map.sources.length !== total) err('sources-not-concatenation', `sources has ${map.sources.length} entries, the files contribute ${total}: ${JSON.stringify(map.sources)}`);
   }
   const dec = decodeMappings(map.mappings);
   for (const e of dec.errors) err(e.kind, e.msg);
   const maps = dec.maps;
   stats.mappings = maps.length;
+  // ---- composition through input source maps -----------------------------------
+  // For a generated marker token that comes from an intermediate file (a file
+  // with an input map), the composed original position is what the input map
+  // says about the position of that token in the intermediate text: the LAST
+  // segment on that line whose column is <= the token's column (SourceMap.tla
+  // RefFind); a 1-field segment or no segment at all means "not mapped".
+  const inters = (job.inter || []).map(I => {
+    const tk = tokenize(I.text), starts = lineStarts(I.text);
+    const byMarker = new Map();
+    for (const [off, t] of tk.toks) { if (t.t === 'comment') continue; const mk = markerAt(I.text, off); if (mk) { if (!byMarker.has(mk)) byMarker.set(mk, []); byMarker.get(mk).push(off); } }
+    if (I.plain) return { I, starts, byMarker, byLine: null, names: [], tokErr: tk.error, decErr: 0 };
+    const im = JSON.parse(I.map), d = decodeMappings(im.mappings);
+    const byLine = new Map();
+    for (const sg of d.maps) { if (!byLine.has(sg.gl)) byLine.set(sg.gl, []); byLine.get(sg.gl).push(sg); }
+    return { I, starts, byMarker, byLine, names: im.names || [], tokErr: tk.error, decErr: d.errors.length };
+  });
+  for (const X of inters) if (X.tokErr || X.decErr) return { id: job.id, errors, stats, infra: `cannot use the intermediate file ${X.I.file}: ${X.tokErr || 'undecodable input map'}` };
+  const refFind = (X, line, col) => { let best = null; for (const sg of (X.byLine.get(line) || [])) if (sg.gc <= col && (best === null || sg.gc >= best.gc)) best = sg; return best; };
+  // every place where a marker stands in the files esbuild read, with what the
+  // composed mapping of a token there must be (null: not mapped)
+  const expectedFor = mk => {
+    const out = [];
+    for (const X of inters) for (const off of (X.byMarker.get(mk) || [])) {
+      const [l, c] = toLineCol(X.starts, off);
+      if (X.I.plain) out.push({ X, l, c, to: { src: X.I.sources[0], ol: l, oc: c, name: null } });
+      else { const sg = refFind(X, l, c); out.push({ X, l, c, sg, to: sg && sg.n >= 4 ? { src: X.I.sources[sg.src], ol: sg.ol, oc: sg.oc, name: sg.n === 5 ? X.names[sg.name] : null } : null }); }
+    }
+    return out;
+  };
+  const perSourceCompose = map.sources.map(() => 0);
+  const anyRenaming = inters.some(X => X.I.renames);
   const code = job.code;
   const gStarts = lineStarts(code);
   stats.lines = gStarts.length;
   const gTok = tokenize(code);
   if (gTok.error) return { id: job.id, errors, stats, infra: 'cannot tokenise the generated code: ' + gTok.error };
-  const sInfo = srcText.map(t => t === null ? null : sourceInfo(t));
+  const sInfo = srcText.map(t => t === null ? null : sourceInfo(t, !!opts.looseSources));
   for (let i = 0; i < sInfo.length; i++) if (sInfo[i] && sInfo[i].tok.error) return { id: job.id, errors, stats, infra: `cannot tokenise ${map.sources[i]}: ${sInfo[i].tok.error}` };
   // the number of ';' must not exceed the number of lines of the generated code
   let maxLine = 0;
@@ -252,6 +311,26 @@ function checkJob(job) {
       while (g4 < code.length && (isBlank(code.charCodeAt(g4)) || isNL(code.charCodeAt(g4)))) g4++;
       if (gTok.toks.has(g4) && markerAt(code, g4) !== null) { mg = markerAt(code, g4); stats.paren_skips++; }
     }
+    // composition oracle (decided by the GENERATED token: where its marker stands in the files esbuild read)
+    let inexact = false;
+    // (a use of an aliased import is printed with the name of the declaration)
+    const cands = mg !== null && inters.length ? [mg].concat(Object.keys(job.aliases || {}).filter(a => job.aliases[a] === mg)).flatMap(expectedFor) : [];
+    if (cands.some(x => !x.X.I.plain)) {
+      inexact = cands.some(x => !x.X.I.exact);
+      const hit = cands.find(x => x.to && x.to.src === map.sources[m.src] && x.to.ol === m.ol && x.to.oc === m.oc);
+      const desc = cands.map(x => `${x.X.I.file} ${x.l}:${x.c} => ${x.to ? x.to.src + '@' + x.to.ol + ':' + x.to.oc : (x.sg ? 'unmapped (1-field segment)' : 'unmapped (no segment)')}`).join('; ');
+      if (hit) {
+        stats.compose_true++; perSourceCompose[m.src]++;
+        if (hit.to.name !== null && !(m.n === 5 && map.names[m.name] === hit.to.name)) err('compose-name', `${where}: the input map of ${hit.X.I.file} records the name ${JSON.stringify(hit.to.name)} for this position, the final map ${m.n === 5 ? 'records ' + JSON.stringify(map.names[m.name]) : 'records none'}`, { map: m });
+      } else if (!isCover) {
+        if (cands.every(x => !x.to)) {
+          const after1 = cands.some(x => x.sg && x.sg.n === 1);
+          err(after1 ? 'compose-after-unmapped-segment' : 'compose-unmapped-line', `${where}: the generated token ${JSON.stringify(gt.x)} stands where the input map does not map it, but the final map maps it (${desc})`, { map: m, gen_marker: mg });
+        } else if (anyRenaming && /^mk_\d+_/.test(mg)) stats.compose_not_decidable++; // a first stage renamed identifiers: the intermediate token of this identifier may be no marker
+        else err('compose-mismatch', `${where}: the generated token ${JSON.stringify(gt.x)} must map to one of: ${desc}`, { map: m, gen_marker: mg });
+      }
+    } else if (mg === null && inters.some(X => !X.I.exact && X.I.sources.includes(map.sources[m.src]))) inexact = true;
+    if (inexact) { stats.inexact_skipped++; continue; } // token-level truth is not defined through a coarse input map
     let nameOK = false;
     if (m.n === 5) {
       const nm = map.names[m.name];
@@ -259,6 +338,10 @@ function checkJob(job) {
         // the name of the imported binding's DECLARATION is recorded, not the local alias written at this position
         bad('name-alias', `${where}: recorded name ${JSON.stringify(nm)} but the original identifier there is the import alias ${JSON.stringify(ot.x)}`, { map: m });
         nameOK = true; // the generated token is still the renamed image of this identifier
+      } else if (ot.t === 'ident' && ot.x !== nm && (job.renamed || []).includes(ot.x) && !/^mk_\d+/.test(nm)) {
+        // same cause: the declaration lives in a file whose first stage renamed it; its intermediate name is recorded
+        bad('name-alias', `${where}: recorded name ${JSON.stringify(nm)} is the intermediate name of the imported declaration, the original identifier there is ${JSON.stringify(ot.x)}`, { map: m });
+        nameOK = true;
       } else if (ot.t !== 'ident' && ot.t !== 'keyword' || ot.x !== nm) bad('name-untrue', `${where}: recorded name ${JSON.stringify(nm)} but the original token there is ${JSON.stringify(ot.x)}`, { map: m });
       else { nameOK = true; stats.name_true++; }
     }
@@ -266,6 +349,7 @@ function checkJob(job) {
       const alias = (job.aliases || {})[mo];
       if (mg === mo || (alias !== undefined && mg === alias)) { stats.marker_true++; perSourceTrue[m.src]++; mappedGen.add(g2); }
       else if (mg === null && nameOK && gt.t === 'ident') { stats.marker_true++; perSourceTrue[m.src]++; mappedGen.add(g2); }
+      else if (mg === null && gt.t === 'ident' && (job.renamed || []).includes(mo)) stats.renamed_unverified++; // bound to a declaration that a first stage renamed: printed with the intermediate name
       else bad('untrue', `${where}: original token ${JSON.stringify(ot.x)} but the generated token is ${JSON.stringify(gt.x)}` + (m.n === 5 ? ` (name ${JSON.stringify(map.names[m.name])})` : ''), { map: m, orig_marker: mo, gen_marker: mg });
     } else {
       if (mg !== null) bad('untrue', `${where}: original token ${JSON.stringify(ot.x)} is not a marker but the generated token is the marker ${JSON.stringify(gt.x)}`, { map: m, orig_marker: mo, gen_marker: mg });
@@ -278,7 +362,7 @@ function checkJob(job) {
     if (t.t === 'comment') continue;
     if (markerAt(code, off) !== null) { stats.gen_markers++; if (mappedGen.has(off)) stats.gen_markers_mapped++; }
   }
-  if (expect.everySourceMapped) perSourceTrue.forEach((c, i) => { if (c === 0 && sInfo[i]) err('no-true-mapping', `no mapping points at a marker of ${map.sources[i]}`); });
+  if (expect.everySourceMapped) perSourceTrue.forEach((c, i) => { if (c + perSourceCompose[i] === 0 && sInfo[i]) err('no-true-mapping', `no mapping points at a marker of ${map.sources[i]}`); });
   if (expect.minSources && map.sources.length < expect.minSources) err('missing-source', `only ${map.sources.length} sources, expected at least ${expect.minSources}`);
   const res = { id: job.id, errors, stats };
   if (opts.dump) res.dump = out;
@@ -312,13 +396,23 @@ function rebaseJob(job) {
   if (bdec.errors.length) return { id: job.id, errors: [], skipped: ['bundle map undecodable'], compared: 0 };
   const bstarts = lineStarts(bcode);
   const boff = m => toOffset(bcode, bstarts, m.gl, m.gc);
-  // mappings of the bundle per source, in order
-  const per = bmap.sources.map(() => []);
-  let contiguous = true, lastSrc = -1; const seen = new Set();
+  // the files of the bundle and the sources each contributes (by NAME); the place
+  // of a file's first source in the real "sources" array is its real base
+  const groups = job.groups || [];
+  const fileOfSrc = bmap.sources.map(() => -1), realBase = [];
+  groups.forEach((g, fi) => {
+    realBase[fi] = bmap.sources.indexOf(g.sources[0]);
+    g.sources.forEach(sn => { const i = bmap.sources.indexOf(sn); if (i >= 0) fileOfSrc[i] = fi; });
+  });
+  // mappings of the bundle per file, in order
+  const per = groups.map(() => []);
+  let contiguous = true, lastFile = -1; const seen = new Set();
   for (const m of bdec.maps) {
     if (m.n < 4) { contiguous = false; continue; }
-    if (m.src !== lastSrc) { if (seen.has(m.src)) contiguous = false; seen.add(m.src); lastSrc = m.src; }
-    per[m.src].push(m);
+    const fi = m.src >= 0 && m.src < fileOfSrc.length ? fileOfSrc[m.src] : -1;
+    if (fi < 0) { contiguous = false; continue; }
+    if (fi !== lastFile) { if (seen.has(fi)) contiguous = false; seen.add(fi); lastFile = fi; }
+    per[fi].push(m);
   }
   let compared = 0;
   const aloneBy = {};
@@ -327,59 +421,155 @@ function rebaseJob(job) {
     const adec = decodeMappings(amap.mappings);
     const astarts = lineStarts(acode);
     const am = adec.maps.filter(m => m.n >= 4);
-    if (adec.errors.length || am.length === 0 || amap.sources.length !== 1) { skipped.push(a.source + ': stand-alone map unusable'); continue; }
+    const want = a.sources || [a.source];
+    if (adec.errors.length || am.length === 0 || amap.sources.length !== want.length || amap.sources.some((x, j) => x !== want[j])) { skipped.push(a.source + ': stand-alone map unusable'); continue; }
     const aoff = m => toOffset(acode, astarts, m.gl, m.gc);
     const pa = aoff(am[0]), pz = aoff(am[am.length - 1]) + 1;
     if (pa < 0 || pz <= pa) { skipped.push(a.source + ': stand-alone positions out of range'); continue; }
     const text = acode.slice(pa, pz);
     const idx = bcode.indexOf(text);
     if (idx < 0 || bcode.indexOf(text, idx + 1) >= 0) { skipped.push(a.source + ': stand-alone text not found exactly once in the bundle'); continue; }
-    const si = bmap.sources.indexOf(a.source);
-    if (si < 0) { err('rebase-missing-source', `${a.source} is not among the sources of the bundle map`); continue; }
-    const bm = per[si];
-    aloneBy[si] = { am, acode, astarts, pa, pz, names: amap.names };
-    if (bm.length !== am.length) { err('rebase-count', `${a.source}: ${am.length} mappings alone but ${bm.length} in the bundle`); continue; }
+    const fi = groups.findIndex(g => g.sources[0] === want[0]);
+    const base = fi >= 0 ? realBase[fi] : -1;
+    if (base < 0 || want.some((x, j) => bmap.sources[base + j] !== x)) { err('rebase-missing-source', `the sources of ${a.source} (${JSON.stringify(want)}) are not a contiguous run of the sources of the bundle map ${JSON.stringify(bmap.sources)}`); continue; }
+    const bm = per[fi];
+    aloneBy[fi] = { am, acode, astarts, pa, pz, names: amap.names };
+    if (bm.length !== am.length) { err('rebase-count', `${a.source}: ${am.length} mappings alone but ${bm.length} mappings of the bundle name its sources`); continue; }
     for (let i = 0; i < am.length; i++) {
       const x = am[i], y = bm[i];
-      const want = aoff(x) - pa + idx, got = boff(y);
+      const wantOff = aoff(x) - pa + idx, got = boff(y);
       const xn = x.n === 5 ? amap.names[x.name] : null, yn = y.n === 5 ? bmap.names[y.name] : null;
-      if (want !== got || x.ol !== y.ol || x.oc !== y.oc || xn !== yn) {
-        const wlc = toLineCol(bstarts, want);
-        err('rebase-mismatch', `${a.source} mapping #${i}: alone gen ${x.gl}:${x.gc} -> ${x.ol}:${x.oc}; re-based by the start offset it must be at bundle ${wlc[0]}:${wlc[1]} but the bundle map has ${y.gl}:${y.gc} -> ${y.ol}:${y.oc}` + (xn !== yn ? ` (names ${xn} / ${yn})` : ''), { source: a.source, index: i });
+      if (wantOff !== got || x.src + base !== y.src || x.ol !== y.ol || x.oc !== y.oc || xn !== yn) {
+        const wlc = toLineCol(bstarts, wantOff);
+        err('rebase-mismatch', `${a.source} mapping #${i}: alone gen ${x.gl}:${x.gc} -> source ${x.src} ${x.ol}:${x.oc}; re-based by the start offset and the file's source index base ${base} it must be at bundle ${wlc[0]}:${wlc[1]} -> source ${x.src + base}, but the bundle map has ${y.gl}:${y.gc} -> source ${y.src} ${y.ol}:${y.oc}` + (xn !== yn ? ` (names ${xn} / ${yn})` : ''), { source: a.source, index: i });
         break;
       }
       compared++;
     }
   }
-  // instance record for TLC (only when every source forms one contiguous run)
+  // instance record for TLC (only when every file forms one contiguous run)
   let record = null;
   if (contiguous && errors.length === 0 && bdec.maps.length > 0 && bdec.maps.length <= 900) {
-    const order = []; for (const m of bdec.maps) if (!order.includes(m.src)) order.push(m.src);
-    const chunks = []; let q = 0, tn = 0, okRec = true;
-    for (const si of order) {
-      const bm = per[si];
+    const order = []; for (const m of bdec.maps) { const fi = fileOfSrc[m.src]; if (!order.includes(fi)) order.push(fi); }
+    const chunks = []; let q = 0, okRec = true;
+    for (const fi of order) {
+      const bm = per[fi], base = realBase[fi], k = groups[fi].sources.length;
       const first = boff(bm[0]), end = boff(bm[bm.length - 1]) + 1;
-      if (first < 0 || end < 0 || first < q) { okRec = false; break; }
-      let maps, lines, fcol, nn = 0;
-      const rel = (ms, starts, offOf, names) => {
+      if (first < 0 || end < 0 || first < q || base < 0) { okRec = false; break; }
+      let maps, lines, fcol;
+      const rel = (ms, starts, offOf, names, sbase) => {
         const [l0, c0] = toLineCol(starts, offOf(ms[0]));
         const local = new Map();
         return ms.map(m => {
           let nm = -1;
-          if (m.n === 5) { const t = names[m.name]; if (!local.has(t)) local.set(t, local.size); nm = local.get(t); nn = local.size; }
-          return [m.gl - l0, m.gl === l0 ? m.gc - c0 : m.gc, m.ol, m.oc, nm];
+          if (m.n === 5) { const t = names[m.name]; if (!local.has(t)) local.set(t, local.size); nm = local.get(t); }
+          return [m.gl - l0, m.gl === l0 ? m.gc - c0 : m.gc, m.ol, m.oc, nm, m.src - sbase];
         });
       };
-      const al = aloneBy[si];
-      if (al) { maps = rel(al.am, al.astarts, m => toOffset(al.acode, al.astarts, m.gl, m.gc), al.names); [lines, fcol] = refOffset(al.acode, al.pa, al.pz); }
-      else { maps = rel(bm, bstarts, boff, bmap.names); [lines, fcol] = refOffset(bcode, first, end); }
+      const al = aloneBy[fi];
+      if (al) { maps = rel(al.am, al.astarts, m => toOffset(al.acode, al.astarts, m.gl, m.gc), al.names, 0); [lines, fcol] = refOffset(al.acode, al.pa, al.pz); }
+      else { maps = rel(bm, bstarts, boff, bmap.names, base); [lines, fcol] = refOffset(bcode, first, end); }
+      if (maps.some(x => x[5] < 0 || x[5] >= k)) { okRec = false; break; }
       const [offl, offc] = refOffset(bcode, q, first);
-      chunks.push({ maps, lines, fcol, offl, offc, src: si, alone: !!al });
-      q = end; tn += nn;
+      // file: identity of the file; nsrc: how many sources it contributes (the length
+      // of its own source list); realbase: where its first source stands in the real array
+      chunks.push({ maps, lines, fcol, offl, offc, file: fi + 1, nsrc: k, realbase: base, alone: !!al });
+      q = end;
     }
-    if (okRec) record = { id: job.id, chunks, segs: bdec.segs.map(x => x === null ? [] : x) };
+    if (okRec) record = { id: job.id, chunks, nsources: bmap.sources.length, segs: bdec.segs.map(x => x === null ? [] : x) };
   }
   return { id: job.id, errors, skipped, compared, record };
+}
+
+// ---- CSS ---------------------------------------------------------------------
+// job: {id, kind:'css', code, map, files, expect}.  Tokens are read off the text: a
+// marker token is a class / id selector, custom property, keyframes / animation
+// name, string or url body that carries a marker.
+const CSSMARK = /^(?:[.#"']|--|::?)?(mk_\d+(?:_[A-Za-z0-9]+)?)/;
+function cssMarkerAt(text, off) { const m = CSSMARK.exec(text.slice(off, off + 48)); return m ? m[1] : null; }
+function cssTokenStart(text, off) {
+  // a position where a CSS token can start: not inside a word
+  if (off >= text.length) return false;
+  const c = text[off];
+  if (/\s/.test(c)) return false;
+  if (/[A-Za-z0-9_-]/.test(c) && off > 0 && /[A-Za-z0-9_-]/.test(text[off - 1])) return false;
+  return true;
+}
+function checkCss(job) {
+  const errors = [], stats = { mappings: 0, with_source: 0, css_marker_true: 0, css_plain: 0, cover: 0, sources: 0, gen_markers: 0, gen_markers_mapped: 0 };
+  const err = (kind, msg, extra) => { if (errors.length < 40) errors.push(Object.assign({ kind, msg }, extra || {})); };
+  const expect = job.expect || {};
+  let map;
+  try { map = JSON.parse(job.map); } catch (e) { err('json', 'the map is not JSON: ' + e.message); return { id: job.id, errors, stats }; }
+  if (map.version !== 3) err('version', `version is ${JSON.stringify(map.version)}, not 3`);
+  if (typeof map.mappings !== 'string' || !Array.isArray(map.sources) || !Array.isArray(map.names)) { err('shape', 'mappings / sources / names have the wrong type'); return { id: job.id, errors, stats }; }
+  stats.sources = map.sources.length;
+  const files = job.files || {};
+  const srcText = map.sources.map((s, i) => { if (!(s in files)) { err('unknown-source', `sources[${i}] = ${JSON.stringify(s)} does not name an input file (known: ${Object.keys(files).join(', ')})`); return null; } return files[s]; });
+  if (new Set(map.sources).size !== map.sources.length) err('duplicate-source', 'sources lists one file twice: ' + JSON.stringify(map.sources));
+  if (expect.sourcesContent === true) {
+    if (!Array.isArray(map.sourcesContent) || map.sourcesContent.length !== map.sources.length) err('sources-content', 'sourcesContent is missing or has the wrong length');
+    else map.sourcesContent.forEach((c, i) => { if (srcText[i] !== null && c !== srcText[i]) err('sources-content', `sourcesContent[${i}] differs from the text of ${map.sources[i]}`); });
+  } else if (expect.sourcesContent === false && 'sourcesContent' in map) err('sources-content', 'sourcesContent present although it was switched off');
+  if (expect.groups) {
+    let total = 0;
+    for (const g of expect.groups) {
+      total += g.sources.length;
+      const i0 = map.sources.indexOf(g.sources[0]);
+      if (i0 < 0) { err('sources-not-concatenation', `the sources of ${g.file} are missing: ${JSON.stringify(g.sources)} not in ${JSON.stringify(map.sources)}`); continue; }
+      for (let j = 0; j < g.sources.length; j++) if (map.sources[i0 + j] !== g.sources[j]) { err('sources-not-concatenation', `the sources of ${g.file} must be the contiguous run ${JSON.stringify(g.sources)} but sources is ${JSON.stringify(map.sources)}`); break; }
+    }
+    if (map.sources.length !== total) err('sources-not-concatenation', `sources has ${map.sources.length} entries, the files contribute ${total}: ${JSON.stringify(map.sources)}`);
+  }
+  const dec = decodeMappings(map.mappings);
+  for (const e of dec.errors) err(e.kind, e.msg);
+  const code = job.code, gStarts = lineStarts(code);
+  const sStarts = srcText.map(t => t === null ? null : lineStarts(t));
+  const perSourceTrue = map.sources.map(() => 0);
+  const mappedGen = new Set();
+  let prev = null;
+  stats.mappings = dec.maps.length;
+  dec.maps.forEach((m, k) => {
+    const where = `mapping #${k} gen ${m.gl}:${m.gc}` + (m.n >= 4 ? ` -> ${map.sources[m.src]}@${m.ol}:${m.oc}` : '');
+    if (prev && prev.gl === m.gl && m.gc < prev.gc) err('unsorted', `${where}: generated column goes backwards (previous ${prev.gc})`);
+    const p = prev; prev = m;
+    const g = toOffset(code, gStarts, m.gl, m.gc);
+    if (g < 0) { err('gen-range', `${where}: generated position is outside the generated text`); return; }
+    if (m.n < 4) return;
+    stats.with_source++;
+    if (m.src < 0 || m.src >= map.sources.length) { err('source-index', `${where}: source index ${m.src} out of range`); return; }
+    if (m.ol < 0 || m.oc < 0) { err('negative', `${where}: negative original position`); return; }
+    if (srcText[m.src] === null) return;
+    const T = srcText[m.src];
+    const o = toOffset(T, sStarts[m.src], m.ol, m.oc);
+    if (o < 0) { err('orig-range', `${where}: original position is outside the text of ${map.sources[m.src]}`); return; }
+    const isCover = m.gc === 0 && p && p.n >= 4 && p.src === m.src && p.ol === m.ol && p.oc === m.oc;
+    if (isCover) { stats.cover++; return; }
+    let g2 = g;
+    while (g2 < code.length && /\s/.test(code[g2])) g2++;
+    const mo = cssMarkerAt(T, o), mg = cssMarkerAt(code, g2);
+    const gtxt = code.slice(g2, g2 + 24), otxt = T.slice(o, o + 24);
+    // two defects of the unchanged tree with their own kinds (known_findings.jsonl):
+    // a box shorthand re-created by the minifier (margin: 0 0 0 0 -> margin:0) is
+    // located at offset 0 of its file; the wrapper generated from the conditions of
+    // an @import (@media screen{...}) carries offsets of the IMPORTING file but is
+    // mapped through the imported file's line table and source index
+    if (/^margin\b/.test(gtxt) && !/^margin\b/.test(otxt)) { err('css-compacted-box-loc', `${where}: the compacted declaration ${JSON.stringify(gtxt)} is mapped to ${JSON.stringify(otxt)}`, { map: m }); return; }
+    if (expect.importConditions && /^(@media\b|screen\b|print\b)/.test(gtxt) && !/^(@media\b|screen\b|print\b)/.test(otxt)) { err('css-import-condition-loc', `${where}: the wrapper text ${JSON.stringify(gtxt)} generated from an @import condition is mapped to ${JSON.stringify(otxt)}`, { map: m }); return; }
+    if (mo !== null || mg !== null) {
+      if (mo === mg) { stats.css_marker_true++; perSourceTrue[m.src]++; mappedGen.add(g2); }
+      else err('untrue', `${where}: original text ${JSON.stringify(T.slice(o, o + 24))} but generated text ${JSON.stringify(code.slice(g2, g2 + 24))}`, { map: m, orig_marker: mo, gen_marker: mg });
+      return;
+    }
+    if (!cssTokenStart(T, o)) { err('orig-not-token', `${where}: no token starts at the original position (${JSON.stringify(T.slice(Math.max(0, o - 6), o))}|${JSON.stringify(T.slice(o, o + 16))})`, { map: m }); return; }
+    if (!cssTokenStart(code, g2)) { err('gen-not-token', `${where}: no token starts at the generated position (${JSON.stringify(code.slice(Math.max(0, g2 - 6), g2))}|${JSON.stringify(code.slice(g2, g2 + 16))})`, { map: m }); return; }
+    stats.css_plain++;
+  });
+  // selectors / names that carry a marker in the generated text: how many are mapped (statistic)
+  const re = /(?:[.#"']|--)mk_\d+/g; let mm;
+  while ((mm = re.exec(code)) !== null) { stats.gen_markers++; if (mappedGen.has(mm.index)) stats.gen_markers_mapped++; }
+  if (expect.everySourceMapped) perSourceTrue.forEach((c, i) => { if (c === 0 && srcText[i] !== null) err('no-true-mapping', `no mapping points at a marker of ${map.sources[i]}`); });
+  return { id: job.id, errors, stats };
 }
 
 module.exports = { decodeMappings, lineStarts, toOffset, toLineCol, tokenize, markerAt, checkJob };
@@ -390,7 +580,7 @@ if (require.main === module) {
   process.stdin.on('data', d => { inp += d; }).on('end', () => {
     const req = JSON.parse(inp);
     const results = req.jobs.map(j => {
-      try { return j.kind === 'rebase' ? rebaseJob(j) : checkJob(j); } catch (e) { return { id: j.id, errors: [], stats: {}, infra: 'checker exception: ' + (e && e.stack || e) }; }
+      try { return j.kind === 'rebase' ? rebaseJob(j) : j.kind === 'css' ? checkCss(j) : checkJob(j); } catch (e) { return { id: j.id, errors: [], stats: {}, infra: 'checker exception: ' + (e && e.stack || e) }; }
     });
     process.stdout.write(JSON.stringify({ results }));
   });
